@@ -82,6 +82,34 @@ PLANS["C12"] = pure_plan("chunksize", 150000, 8000000,
                          ["fit_checked", "growth_checked", "hint_overflow_reported", "up_sized", "down_sized", "slow_new", "with_capacity_fit", "reserve_new_chunk", "first_chunk_from_unallocated"],
                          extra_quick=_c12a["quick"], extra_thorough=_c12a["thorough"][:4])
 
+def coll(prop, hq, ht, need, level="exploration", extra=(), extra_quick=(), extra_thorough=(), miri_h=3, miri_extra=()):
+    return dict(
+        level=level, need=list(need),
+        rule="evaluations = generated operation histories on a real collection next to its reference model (std Vec/String, drop ledger, position vector); for fault_enumeration "
+             "each history is additionally re-run once per injection point (callback index for panics, base-allocator call index for refusals); "
+             "non-trivial = the history hit a monitored event class (growth, reallocation, matched panic, injected panic, partial drain, split, ...), distinct by (configuration, operation list)",
+        quick=[("dbg", "coll", ["--prop", prop, *extra], 16, ["--histories", str(hq)]),
+               ("rel", "coll", ["--prop", prop, *extra], 16, ["--histories", str(hq * 2)]),
+               ("miri", "coll", ["--prop", prop, "--ops", "25", *extra, *miri_extra], 8, ["--histories", str(miri_h)]), *extra_quick],
+        thorough=[("dbg", "coll", ["--prop", prop, *extra], 16, ["--histories", str(ht)]),
+                  ("rel", "coll", ["--prop", prop, *extra], 16, ["--histories", str(ht * 3)]),
+                  ("asan", "coll", ["--prop", prop, "--thin", *extra], 16, ["--histories", str(ht)]),
+                  ("vg", "coll", ["--prop", prop, "--thin", *extra], 16, ["--histories", str(max(4, ht // 30))]),
+                  ("miri", "coll", ["--prop", prop, "--ops", "30", *extra, *miri_extra], 16, ["--histories", str(miri_h * 5)]), *extra_thorough],
+    )
+
+PLANS["C06"] = coll("C06", 12, 300, ["panic_injected", "panic_injected_in_drop", "drain_partial", "drain_forgotten", "drain_keep_rest", "retain", "dedup", "extract_if_partial", "finalised"],
+                    level="fault_enumeration", extra=["--max-enum", "60"], miri_h=1, miri_extra=["--max-enum", "8"])
+_c07a = arena("C07", 25, 600, level="fault_enumeration")
+PLANS["C07"] = coll("C07", 150, 4000, ["alloc_refused", "fixed_full_rejected", "base_refused", "mut_grew_other_chunk", "commit_mut", "panicking_method_panicked_on_refusal", "typed_err_refused"],
+                    level="fault_enumeration", miri_h=1, extra_quick=_c07a["quick"], extra_thorough=_c07a["thorough"][:5])
+PLANS["C08"] = coll("C08", 400, 10000, ["grew", "grew_realloc", "panic_matched_model", "zst_capacity", "fixed_full_rejected", "conversion", "drain_partial", "retain", "dedup"])
+PLANS["C09"] = coll("C09", 400, 10000, ["nonboundary_index", "invalid_utf8_input", "lossy_replaced", "str_panic_matched", "cstr", "split", "panic_injected"])
+_c15a = arena("C15", 40, 1000)
+PLANS["C15"] = coll("C15", 300, 8000, ["commit_mut", "commit_mut_rev", "mut_dropped_unfinalised", "mut_grew_other_chunk", "prepared_commit", "mut_helper", "prepared_commit_after_chunk_switch"],
+                    extra_quick=_c15a["quick"], extra_thorough=_c15a["thorough"][:4])
+PLANS["C16"] = coll("C16", 400, 10000, ["split", "merge_ok", "merge_rejected", "split_interior", "split_prefix", "split_suffix", "split_empty", "split_full"])
+
 # ---------------------------------------------------------------------------------------------
 # building
 
@@ -129,7 +157,9 @@ def build(variant, binary, log):
 
 def shard_cmd(variant, binary, path, args):
     if variant == "miri":
-        return ["cargo", "+nightly", "miri", "run", "--bin", binary, "--target-dir", target_dir("miri"), "--", *args], {"MIRIFLAGS": MIRIFLAGS}
+        # the collection drivers leak on purpose (forgotten drains, values lost by panicking drops): the drop ledger judges those
+        flags = MIRIFLAGS + (" -Zmiri-ignore-leaks" if binary in ("coll", "pool") else "")
+        return ["cargo", "+nightly", "miri", "run", "--bin", binary, "--target-dir", target_dir("miri"), "--", *args], {"MIRIFLAGS": flags}
     if variant == "vg":
         return ["valgrind", "--error-exitcode=97", "--leak-check=no", "--undef-value-errors=yes", "-q", path, *args], {}
     if variant == "asan":
